@@ -38,6 +38,9 @@ Clauses of the property and where they are:
   `reject_restores_group`, `lm_unweighted_eq_identity` + `lm_Ak_posDef_unweighted`, `lm_Ak_posDef_of_full_rank_unweighted`,
   `lm_trial_minimises_unweighted`, `lm_Ak_separable_unweighted` (the default, unweighted LM), `minnorm_zero_on_zero_columns`,
   `zero_columns_irrelevant`, `jac_column_along_update`, `residuals_too_few_targets`.
+* passes 5 / 7 / 10: the weight is used entry for entry, no tolerance — `weight_used_exactly`, `weight_used_exactly_d1` (one residual,
+  documented shapes), `weight_used_exactly_general` (the whole `block_diag` of a call), `gn_rhs_determines_weight`,
+  `lm_rhs_determines_weight` (stated on the right-hand sides the step hands to the solver).
   Helper statements (unfolding lemmas, call histories, `gn_step_core`, defaults) live in `Proofs/Lemmas/GNStep.lean`.
 
 What the model does NOT cover (decided by oracles on the real code only, see harness/c07.py META): the sparse
@@ -1228,5 +1231,170 @@ example : ¬ ∀ B B', wblocks ([3] ++ [2] ++ [1]) ([2] ++ [1, 1]) (fun s => if 
   intro h
   have := weight_used_exactly_d1 [3] [2] (by simp [prod]) (by simp [prod]) _ _ h 1 (by simp [prod])
   norm_num at this
+
+/-! ## Pass 10 -/
+
+/-- **The weight is used entry for entry — any number of residuals, any square blocks.**  Two families of weight blocks
+of the same shapes (per residual: item count, block size, number of distinct blocks): if the two block-diagonal matrices
+act identically on every vector, then for every residual `i`, every item `t` and every `a, b` the entries
+`W_i[t % nb_i][a, b]` coincide.  (Generalises `weight_used_exactly` / `weight_used_exactly_d1` from one residual with a
+documented shape to the whole `block_diag` of a call.) -/
+theorem weight_used_exactly_general (bs bs' : List (WBlocks ℝ)) (hsq : ∀ B ∈ bs, B.h = B.w ∧ 0 < B.h)
+    (hsq' : ∀ B ∈ bs', B.h = B.w ∧ 0 < B.h) (hlen : bs'.length = bs.length)
+    (hf : ∀ j, j < bs.length → (bs'.getD j default).cnt = (bs.getD j default).cnt ∧
+      (bs'.getD j default).h = (bs.getD j default).h ∧ (bs'.getD j default).w = (bs.getD j default).w ∧
+      (bs'.getD j default).nb = (bs.getD j default).nb)
+    (h : ∀ (v : Nat → ℝ) (r : Nat), ∑ c ∈ range (wCols bs), blockDiag bs r c * v c
+        = ∑ c ∈ range (wCols bs'), blockDiag bs' r c * v c)
+    (i t a b : Nat) (hi : i < bs.length) (ht : t < (bs.getD i default).cnt) (ha : a < (bs.getD i default).h)
+    (hb : b < (bs.getD i default).h) :
+    (bs.getD i default).blk (t % (bs.getD i default).nb) a b
+      = (bs'.getD i default).blk (t % (bs.getD i default).nb) a b := by
+  have hr : bs'.map (·.rows) = bs.map (·.rows) := by
+    apply List.ext_getElem (by simp [hlen])
+    intro j h1 h2
+    have hj : j < bs.length := by simpa using h2
+    have hj' : j < bs'.length := by simpa using h1
+    obtain ⟨e1, e2, -, -⟩ := hf j hj
+    rw [getD_eq_getElem' bs j hj, getD_eq_getElem' bs' j hj'] at e1 e2
+    simp only [List.getElem_map, WBlocks.rows, e1, e2]
+  have hc : bs'.map (·.cols) = bs.map (·.cols) := by
+    apply List.ext_getElem (by simp [hlen])
+    intro j h1 h2
+    have hj : j < bs.length := by simpa using h2
+    have hj' : j < bs'.length := by simpa using h1
+    obtain ⟨e1, -, e3, -⟩ := hf j hj
+    rw [getD_eq_getElem' bs j hj, getD_eq_getElem' bs' j hj'] at e1 e3
+    simp only [List.getElem_map, WBlocks.cols, e1, e3]
+  obtain ⟨f1, f2, f3, f4⟩ := hf i hi
+  set v : Nat → ℝ := fun c => if c = offset (bs.map (·.cols)) i + (t * (bs.getD i default).h + b) then 1 else 0 with hv
+  have e := blockDiag_row_dot bs hsq v i t a hi ht ha
+  have e' := blockDiag_row_dot bs' hsq' v i t a (by rw [hlen]; exact hi) (by rw [f1]; exact ht) (by rw [f2]; exact ha)
+  rw [hr, hc, f2, f4] at e'
+  have key := h v (offset (bs.map (·.rows)) i + (t * (bs.getD i default).h + a))
+  rw [e, e'] at key
+  have pick : ∀ f : Nat → ℝ, ∑ x ∈ range (bs.getD i default).h,
+      f x * v (offset (bs.map (·.cols)) i + (t * (bs.getD i default).h + x)) = f b := by
+    intro f
+    rw [Finset.sum_eq_single b]
+    · simp [hv]
+    · intro x _ hx
+      have hne : ¬ (offset (bs.map (·.cols)) i + (t * (bs.getD i default).h + x)
+          = offset (bs.map (·.cols)) i + (t * (bs.getD i default).h + b)) := by omega
+      simp only [hv, if_neg hne, mul_zero]
+    · intro hnb; exact absurd (mem_range.mpr hb) hnb
+  rw [pick, pick] at key
+  exact key
+
+/-- non-vacuity: two residuals (two scalar items with their own 1×1 weights; one item with a 2×2 weight).  Replacing the
+identity block by one whose off-diagonal entries are `10⁻⁹` changes the action of the block-diagonal weight. -/
+example :
+    let B1 : WBlocks ℝ := ⟨2, 1, 1, 2, fun t _ _ => if t = 0 then 2 else 3⟩
+    let B2 : WBlocks ℝ := ⟨1, 2, 2, 1, fun _ a b => if a = b then 1 else 0⟩
+    let B2' : WBlocks ℝ := ⟨1, 2, 2, 1, fun _ a b => if a = b then 1 else 1 / 1000000000⟩
+    ¬ ∀ (v : Nat → ℝ) (r : Nat), ∑ c ∈ range (wCols [B1, B2]), blockDiag [B1, B2] r c * v c
+        = ∑ c ∈ range (wCols [B1, B2']), blockDiag [B1, B2'] r c * v c := by
+  intro B1 B2 B2' h
+  have hs : ∀ B ∈ [B1, B2], B.h = B.w ∧ 0 < B.h := by
+    intro B hB; simp only [List.mem_cons, List.mem_nil_iff, or_false] at hB
+    rcases hB with rfl | rfl <;> simp [B1, B2]
+  have hs' : ∀ B ∈ [B1, B2'], B.h = B.w ∧ 0 < B.h := by
+    intro B hB; simp only [List.mem_cons, List.mem_nil_iff, or_false] at hB
+    rcases hB with rfl | rfl <;> simp [B1, B2']
+  have := weight_used_exactly_general [B1, B2] [B1, B2'] hs hs' rfl
+    (by intro j hj
+        have : j = 0 ∨ j = 1 := by simp at hj; omega
+        rcases this with rfl | rfl <;> simp [B2, B2'])
+    h 1 0 0 1 (by simp) (by simp [B2]) (by simp [B2]) (by simp [B2])
+  simp [B2, B2'] at this
+
+/-- **The GN right-hand side determines the weight.**  Two families of weight blocks of the same shapes whose GN
+right-hand sides `b = -(block_diag W) · R` coincide for EVERY stacked residual `R` agree in every entry `W_i[t % nb_i][a, b]`:
+the step of the model distinguishes any two different weights (no tolerance, no fast path for "special" weights). -/
+theorem gn_rhs_determines_weight (bs bs' : List (WBlocks ℝ)) (hsq : ∀ B ∈ bs, B.h = B.w ∧ 0 < B.h)
+    (hsq' : ∀ B ∈ bs', B.h = B.w ∧ 0 < B.h) (hlen : bs'.length = bs.length)
+    (hf : ∀ j, j < bs.length → (bs'.getD j default).cnt = (bs.getD j default).cnt ∧
+      (bs'.getD j default).h = (bs.getD j default).h ∧ (bs'.getD j default).w = (bs.getD j default).w ∧
+      (bs'.getD j default).nb = (bs.getD j default).nb)
+    (h : ∀ (R : Vec ℝ) (r : Nat), gnb (wCols bs) (some (blockDiag bs)) R r = gnb (wCols bs') (some (blockDiag bs')) R r)
+    (i t a b : Nat) (hi : i < bs.length) (ht : t < (bs.getD i default).cnt) (ha : a < (bs.getD i default).h)
+    (hb : b < (bs.getD i default).h) :
+    (bs.getD i default).blk (t % (bs.getD i default).nb) a b
+      = (bs'.getD i default).blk (t % (bs.getD i default).nb) a b := by
+  refine weight_used_exactly_general bs bs' hsq hsq' hlen hf ?_ i t a b hi ht ha hb
+  intro v r
+  have := h v r
+  simp only [gnb, sumN_eq, neg_mul, Finset.sum_neg_distrib, neg_inj] at this
+  exact this
+
+/-- **The LM right-hand side determines the weight.**  The same for `b = -(Jᵀ W) R` of the LM system: if it coincides
+for every Jacobian `J` and every residual `R`, the two weights agree entry for entry. -/
+theorem lm_rhs_determines_weight (bs bs' : List (WBlocks ℝ)) (hsq : ∀ B ∈ bs, B.h = B.w ∧ 0 < B.h)
+    (hsq' : ∀ B ∈ bs', B.h = B.w ∧ 0 < B.h) (hlen : bs'.length = bs.length)
+    (hf : ∀ j, j < bs.length → (bs'.getD j default).cnt = (bs.getD j default).cnt ∧
+      (bs'.getD j default).h = (bs.getD j default).h ∧ (bs'.getD j default).w = (bs.getD j default).w ∧
+      (bs'.getD j default).nb = (bs.getD j default).nb)
+    (hm : wRows bs = wCols bs) (hm' : wRows bs' = wCols bs') (hmm : wCols bs' = wCols bs)
+    (h : ∀ (J : Mat ℝ) (R : Vec ℝ) (i : Nat),
+      lmb (wCols bs) (lmJT (wCols bs) (some (blockDiag bs)) J) R i
+        = lmb (wCols bs') (lmJT (wCols bs') (some (blockDiag bs')) J) R i)
+    (i t a b : Nat) (hi : i < bs.length) (ht : t < (bs.getD i default).cnt) (ha : a < (bs.getD i default).h)
+    (hb : b < (bs.getD i default).h) :
+    (bs.getD i default).blk (t % (bs.getD i default).nb) a b
+      = (bs'.getD i default).blk (t % (bs.getD i default).nb) a b := by
+  refine weight_used_exactly_general bs bs' hsq hsq' hlen hf ?_ i t a b hi ht ha hb
+  intro v r
+  by_cases hr : r < wCols bs
+  · have := h (fun r' _ => if r' = r then 1 else 0) v 0
+    simp only [lmb, lmJT, sumN_eq, neg_mul, Finset.sum_neg_distrib, neg_inj, hmm] at this
+    have pick : ∀ W : Mat ℝ, ∀ s, ∑ x ∈ range (wCols bs), (if x = r then (1:ℝ) else 0) * W x s = W r s := by
+      intro W s
+      rw [Finset.sum_eq_single r]
+      · simp
+      · intro x _ hx; simp [hx]
+      · intro hnr; exact absurd (mem_range.mpr hr) hnr
+    simp only [pick] at this
+    rw [hmm]; exact this
+  · have hr' : wCols bs ≤ r := Nat.le_of_not_lt hr
+    have z1 : ∀ c, blockDiag bs r c = 0 := fun c => blockDiag_zero_of_ge_rows bs r c (by rw [hm]; exact hr')
+    have z2 : ∀ c, blockDiag bs' r c = 0 := fun c => blockDiag_zero_of_ge_rows bs' r c (by rw [hm', hmm]; exact hr')
+    simp [z1, z2]
+
+/-- non-vacuity: two residuals (two scalar items with their own weights, one item with a 2×2 weight).  A weight whose
+off-diagonal entries are `10⁻⁹` instead of `0` gives a different GN right-hand side for some residual, and a different LM
+right-hand side for some Jacobian and residual. -/
+example :
+    let B1 : WBlocks ℝ := ⟨2, 1, 1, 2, fun t _ _ => if t = 0 then 2 else 3⟩
+    let B2 : WBlocks ℝ := ⟨1, 2, 2, 1, fun _ a b => if a = b then 1 else 0⟩
+    let B2' : WBlocks ℝ := ⟨1, 2, 2, 1, fun _ a b => if a = b then 1 else 1 / 1000000000⟩
+    (¬ ∀ (R : Vec ℝ) (r : Nat), gnb (wCols [B1, B2]) (some (blockDiag [B1, B2])) R r
+        = gnb (wCols [B1, B2']) (some (blockDiag [B1, B2'])) R r) ∧
+    (¬ ∀ (J : Mat ℝ) (R : Vec ℝ) (i : Nat), lmb (wCols [B1, B2]) (lmJT (wCols [B1, B2]) (some (blockDiag [B1, B2])) J) R i
+        = lmb (wCols [B1, B2']) (lmJT (wCols [B1, B2']) (some (blockDiag [B1, B2'])) J) R i) := by
+  intro B1 B2 B2'
+  have hs : ∀ B ∈ [B1, B2], B.h = B.w ∧ 0 < B.h := by
+    intro B hB; simp only [List.mem_cons, List.mem_nil_iff, or_false] at hB
+    rcases hB with rfl | rfl <;> simp [B1, B2]
+  have hs' : ∀ B ∈ [B1, B2'], B.h = B.w ∧ 0 < B.h := by
+    intro B hB; simp only [List.mem_cons, List.mem_nil_iff, or_false] at hB
+    rcases hB with rfl | rfl <;> simp [B1, B2']
+  have hfld : ∀ j, j < [B1, B2].length → ([B1, B2'].getD j default).cnt = ([B1, B2].getD j default).cnt ∧
+      ([B1, B2'].getD j default).h = ([B1, B2].getD j default).h ∧ ([B1, B2'].getD j default).w = ([B1, B2].getD j default).w ∧
+      ([B1, B2'].getD j default).nb = ([B1, B2].getD j default).nb := by
+    intro j hj
+    have : j = 0 ∨ j = 1 := by simp at hj; omega
+    rcases this with rfl | rfl <;> simp [B2, B2']
+  constructor
+  · intro h
+    have := gn_rhs_determines_weight [B1, B2] [B1, B2'] hs hs' rfl hfld h 1 0 0 1
+      (by simp) (by simp [B2]) (by simp [B2]) (by simp [B2])
+    simp [B2, B2'] at this
+  · intro h
+    have := lm_rhs_determines_weight [B1, B2] [B1, B2'] hs hs' rfl hfld
+      (by simp [wRows, wCols, total, WBlocks.rows, WBlocks.cols, B1, B2])
+      (by simp [wRows, wCols, total, WBlocks.rows, WBlocks.cols, B1, B2'])
+      (by simp [wCols, total, WBlocks.cols, B1, B2, B2']) h 1 0 0 1
+      (by simp) (by simp [B2]) (by simp [B2]) (by simp [B2])
+    simp [B2, B2'] at this
 
 end PP.GNStep
